@@ -97,6 +97,25 @@ def gen_history(rng, maxlen):
         ops.append({'k': 'remove', 'spec': 'ax:1', 'gone': sorted(gone)})
         inst = [s for s in inst if s not in gone]
         ops.append({'k': 'obs'})
+    if rng.random() < 0.35:
+        # one resource with two lexicons supplied in memory, one of them removed, the same resource supplied again
+        pair = [s for s in ('u:1', 'd:1')]
+        v2 = '1.3' if any(U[s][1] == '1.3' for s in pair) else '1.1'
+        both = {'k': 'add', 'res': docs.resource([U[s][0] for s in pair], v2), '_mem': True}
+        ops.append(dict(both))
+        for s in pair:
+            if s not in inst:
+                inst.append(s)
+        ops.append({'k': 'obs'})
+        ops.append({'k': 'remove', 'spec': 'u:1', 'gone': ['u:1']})
+        inst = [s for s in inst if s != 'u:1']
+        ops.append({'k': 'obs'})
+        ops.append(dict(both))
+        inst.append('u:1')
+        ops.append({'k': 'obs'})
+    for op in ops:
+        if op['k'] == 'add' and len(op['res']['lexicons']) >= 2 and rng.random() < 0.4:
+            op['_mem'] = True
     for op in ops[1:]:
         if op['k'] in ('remove', 'add') and rng.random() < 0.25:
             op['_reconnect'] = True          # the history continues in a new session on the same file
@@ -206,6 +225,7 @@ def judge(ctx, sc, im, mo):
     if 'exception' in im:
         ctx.fail('history-runs-without-unexpected-exception', sc, im)
         return
+    store.judge_routes(ctx, sc, im['outs'])
     # correspondence with the model, step by step
     if mo is not None:
         for k, (op, oi, om) in enumerate(zip(sc['ops'], im['outs'], mo)):
@@ -222,9 +242,25 @@ def judge(ctx, sc, im, mo):
     # specifier tokens whose meaning does not depend on the installation order
     before = []
     pending = None
+    pending_add = None
     for op, oi in zip(sc['ops'], im['outs']):
         if op['k'] == 'obs':
             now = [o['spec'] for o in oi] if isinstance(oi, list) else None
+            if pending_add is not None and now is not None:
+                # a successful add installs every lexicon of the resource that was not installed yet and whose
+                # base (for an extension) was installed before the call; "the same lexicon can be added again"
+                want = []
+                for lx in pending_add['res']['lexicons']:
+                    sp_ = f"{lx['id']}:{lx['version']}"
+                    if lx.get('extends') and f"{lx['extends']['id']}:{lx['extends']['version']}" not in before:
+                        continue
+                    want.append(sp_)
+                lacking = [s_ for s_ in want if s_ not in now]
+                if lacking:
+                    ctx.fail('a-successful-add-installs-every-lexicon-of-the-resource-that-can-be-installed', sc,
+                             {'resource': [f"{lx['id']}:{lx['version']}" for lx in pending_add['res']['lexicons']],
+                              'route': 'in memory' if pending_add.get('_mem') else 'file', 'before': before, 'after': now, 'not installed': lacking})
+                pending_add = None
             if pending is not None and now is not None:
                 toks = pending.split()
                 if all(_tok_clear(t) for t in toks):
@@ -245,6 +281,10 @@ def judge(ctx, sc, im, mo):
                 before = now
         elif op['k'] == 'remove' and isinstance(oi, dict) and oi.get('ok'):
             pending = op['spec']
+            pending_add = None
+        elif op['k'] == 'add' and isinstance(oi, dict) and oi.get('ok'):
+            pending = None
+            pending_add = op
         else:
             pending = None
     a = im['audit']
